@@ -1,6 +1,7 @@
 package main
 
 import (
+	"go/constant"
 	"fmt"
 	"go/token"
 	"go/types"
@@ -92,6 +93,7 @@ func c13(c *Ctx) {
 		c.ruleOrder(r, f, "closed=true", storeTo("OngoingTx.closed"), "st.commit", callTo(storeT+"commit"), nil, 1)
 	}
 	c12QueryFailureAborts(c, "C13.1/query-path-failure-aborts")
+	c13PgAbortedBlock(c, "C13.10/pgsql-failed-block-runs-nothing-on-its-own")
 	c13DmlFailureIsReported(c, "C13.9/failed-dml-is-reported")
 	// execPreparedStmts: failure cancels (shared with C12.4), explicit-close transactions are not auto-committed
 	if f := c.mustFn(r, "embedded/sql.(*Engine).execPreparedStmts"); f != nil {
@@ -490,5 +492,85 @@ func c13DmlFailureIsReported(c *Ctx, r string) {
 		} else {
 			c.ok(r, construct, c.pos(in.Pos()), "every return after a failed execution reports an error")
 		}
+	}
+}
+
+// c13PgAbortedBlock: PostgreSQL wire front-end. A statement that fails inside BEGIN ... COMMIT releases the engine
+// transaction; the statements the client sends next still belong to the block it opened. Run on their own (the session
+// has no transaction any more: autocommit) they take effect although the block is rolled back, or never committed.
+//   (a) after a failing statement the session records the failed block (txStatus = 'E'), on every path to the return;
+//   (b) a statement reaches the engine only across the edge "the block has not failed".
+func c13PgAbortedBlock(c *Ctx, r string) {
+	f := c.mustFn(r, "pkg/pgsql/server.(*session).fetchAndWriteResults")
+	if f == nil {
+		return
+	}
+	const failed = 69 // bmessages.TxStatusFailed 'E'
+	storesFailed := func(g *ssa.Function) bool {
+		hit := false
+		allInstrs(g, false, func(in ssa.Instruction) {
+			st, ok := in.(*ssa.Store)
+			if !ok {
+				return
+			}
+			if fl, _ := fieldOf(st.Addr); fl != "session.txStatus" {
+				return
+			}
+			if k, ok := st.Val.(*ssa.Const); ok && k.Value != nil && k.Value.Kind() == constant.Int {
+				if v, _ := constant.Int64Val(k.Value); v == failed {
+					hit = true
+				}
+			}
+		})
+		return hit
+	}
+	marks := func(in ssa.Instruction) bool {
+		if _, isDefer := in.(*ssa.Defer); isDefer {
+			return false
+		}
+		if cc := callOf(in); cc != nil {
+			if g := cc.StaticCallee(); g != nil && len(g.Blocks) > 0 && storesFailed(g) {
+				return true
+			}
+		}
+		if st, ok := in.(*ssa.Store); ok {
+			if fl, _ := fieldOf(st.Addr); fl == "session.txStatus" {
+				if k, ok := st.Val.(*ssa.Const); ok && k.Value != nil {
+					if v, _ := constant.Int64Val(k.Value); v == failed {
+						return true
+					}
+				}
+			}
+		}
+		return false
+	}
+	runs := callTo("pkg/pgsql/server.(*session).exec", "pkg/pgsql/server.(*session).query")
+	rs := sites(f, runs)
+	if len(rs) < 2 {
+		c.undecided(r, fnName(f)+":statements", fmt.Sprintf("%d dispatches of statements to the engine found, 2 expected", len(rs)))
+	}
+	for i, in := range rs {
+		ee := errEdgeOf(in)
+		var edges []cfgEdge
+		for _, b := range f.Blocks {
+			for si := range b.Succs {
+				if ee != nil && ee(b, si) {
+					edges = append(edges, cfgEdge{b, si})
+				}
+			}
+		}
+		construct := fmt.Sprintf("%s:%s#%d:failure-marks-the-block", fnName(f), lastSeg(calleeName(callOf(in))), i)
+		q := &pathQ{fn: f, fromEdges: edges, to: isReturn, via: marks}
+		c.check(len(edges) > 0 && q.bypass() == nil, r, construct, c.pos(in.Pos()), "a failed statement records the failed block before returning",
+			"a statement that fails inside a transaction block leaves the session as if no block was open: the statements that follow run in autocommit and stay committed whatever ends the block")
+	}
+	notFailed := whenCond(false, func(a string) bool {
+		return strings.Contains(a, "txStatus") && strings.Contains(a, " == ") && strings.Contains(a, fmt.Sprintf("const:%d", failed))
+	})
+	q := &pathQ{fn: f, fromEntry: true, to: runs, barrier: notFailed}
+	if w := q.bypass(); w != nil {
+		c.fail(r, fnName(f)+":no-statement-runs-in-a-failed-block", c.pos(f.Pos()), "a statement reaches the engine without the session having looked at whether the current block has failed: "+c.witnessStr(w))
+	} else {
+		c.ok(r, fnName(f)+":no-statement-runs-in-a-failed-block", c.pos(f.Pos()), "statements reach the engine only across `txStatus != failed`")
 	}
 }
